@@ -103,6 +103,15 @@ def odd_cases(rng, n):
         cx, cy = rng.randint(lx, hx), rng.randint(ly, hy)
         if cy == 0: continue
         cases.append({'odd': True, 'x': list(fxm), 'cx': cx, 'y': list(fym), 'cy': cy})
+        if rng.random() < 0.35:
+            # strongly negative fraction lengths (the values reach 2^63 and beyond while the words stay narrow), operands built from integer
+            # VALUES (their value type is int), by either method
+            def g():
+                nw = rng.randint(2, 12); return (rng.random() < 0.6, nw, -rng.choice([50, 52, 56, 58, 60, 62, rng.randint(40, 62)]))
+            fxm, fym = g(), g()
+            lx, hx = S.fmt_bounds(fxm[0], fxm[1]); ly, hy = S.fmt_bounds(fym[0], fym[1])
+            cx, cy = rng.choice([hx, lx, hx - 1, rng.randint(lx, hx)]), rng.choice([hy, ly, 1, rng.randint(ly, hy)])
+            if cy != 0: cases.append({'odd': True, 'x': list(fxm), 'cx': cx, 'y': list(fym), 'cy': cy, 'intval': True, 'method': rng.choice(['raw', 'repr'])})
     return cases
 
 def run_odd(cases, res):
@@ -112,6 +121,8 @@ def run_odd(cases, res):
         xv = Fraction(c['cx']) / Fraction(2) ** fxm[2]; yv = Fraction(c['cy']) / Fraction(2) ** fym[2]
         try:
             x = A.mk(fx, np, *fxm, c['cx']); y = A.mk(fx, np, *fym, c['cy'])
+            if c.get('intval'):
+                x = fx.Fxp(c['cx'] << -fxm[2], *fxm, op_method=c['method']); y = fx.Fxp(c['cy'] << -fym[2], *fym, op_method=c['method'])
             fl = x // y; md = x % y
             got = (Fraction(lib.codes_of(fl)[0]) / Fraction(2) ** fl.n_frac, lib.status3(fl)[:2], Fraction(lib.codes_of(md)[0]) / Fraction(2) ** md.n_frac, lib.status3(md)[:2], int(fl.n_word), int(md.n_word))
         except Exception as e:
